@@ -48,7 +48,25 @@ def queries(tier):
             dd = dict(d, QKIND=qk, QIDX=qi, KLEN=kl)
             qs.append(dict(name='classify_%s_q%d_%d_%d' % (cname, qk, qi, kl), unit='cls', harness='h_classify.c', defs=dd, unwind=7, timeout=600, mem_gb=8, flags=FAST,
                            tv_runs=60, desc='classification of %d tokens (kind,length) %s; query kind %d index %d key length %d' % (nt, toks_, qk, qi, kl), bounds='token kinds/lengths %s' % (toks_,)))
+    # typed getters: (token kind, length) x op x (pos | key length)
+    POS_OPS, NAMED_OPS = (0, 1, 6, 8, 10), (2, 3, 4, 5, 7, 9, 11, 12, 13)
+    gcells = []
+    for op in POS_OPS:
+        for tk in ([S2] if tier == 'quick' else [S0, S2, P3]):
+            for pos in (0, 1):
+                gcells.append((tk, op, pos, 0))
+    for op in NAMED_OPS:
+        for tk in ([S2, LO3] if tier == 'quick' else [S2, LO1, LO2, LO3]):
+            for kl in ([1] if tier == 'quick' else [0, 1, 2]):
+                gcells.append((tk, op, 0, kl))
+    for op in (5, 12):
+        gcells.append((F2S, op, 0, 1)); gcells.append((F2, op, 0, 1))
+    for (k, l), op, pos, kl in gcells:
+        qs.append(dict(name='get_%d%d_op%d_p%d_k%d' % (k, l, op, pos, kl), unit='cls', harness='h_get.c', defs={'K0': k, 'L0': l, 'OP': op, 'POS': pos, 'KLEN': kl},
+                       unwind=24, timeout=600, mem_gb=8, flags=FAST, tv_runs=150,
+                       desc='getter op %d on one token (kind %d, length %d), pos %d / symbolic key of %d bytes, then assert_none_unused' % (op, k, l, pos, kl),
+                       bounds='one token of kind/length (%d,%d)' % (k, l)))
     for l in (0, 1, 2):
-        qs.append(dict(name='unused_list%d' % l, unit='cls', harness='h_unused.c', defs={'LIST': l}, unwind=12, timeout=900, mem_gb=8, flags=FAST, tv_runs=300,
+        qs.append(dict(name='unused_list%d' % l, unit='cls', harness='h_unused.c', defs={'LIST': l}, unwind=28, timeout=900, mem_gb=8, flags=FAST, tv_runs=300,
                        desc='assert_none_unused after a symbolic subset of getters on fixed command line %d' % l, bounds='fixed command line, all subsets of getters'))
     return qs
